@@ -12,12 +12,14 @@ mod c10;
 mod c10_conn;
 mod c11;
 mod c12;
+mod c13_stream;
 mod c14;
 mod c07;
 mod c15;
 mod c16;
 mod c17;
 mod c18;
+mod c18_conn;
 mod c19;
 mod c20;
 mod sinkwalk;
